@@ -323,6 +323,10 @@ func h2dispCases(c *hx.Ctx) {
 			return h2dRaw(4, 8, 0, sid, []byte{byte(inc >> 24), byte(inc >> 16), byte(inc >> 8), byte(inc)})
 		}
 		data := func(sid uint32, end bool, n int) []byte { g.fr.WriteData(sid, end, r.Bytes(n)); return g.take() }
+		// [c08l9] a second HEADERS frame on a stream in flight (trailers) in every combination (h2trail.go)
+		for _, j := range h2tJobs(side, g) {
+			add(side, j.data, j.how)
+		}
 		// fixed boundary cases first
 		for i := 0; i < c.N(3, 12); i++ {
 			parts := 2 + i%2
